@@ -191,7 +191,7 @@ class State:
         s.fresh += 1; return z3.Real('%s!%d' % (name, s.fresh))
 
 class Limits:
-    def __init__(s, max_steps=4000000, max_paths=4000, feas_ms=10000): s.max_steps = max_steps; s.max_paths = max_paths; s.feas_ms = feas_ms
+    def __init__(s, max_steps=4000000, max_paths=4000, feas_ms=10000, max_seconds=900): s.max_steps = max_steps; s.max_paths = max_paths; s.feas_ms = feas_ms; s.max_seconds = max_seconds
 
 UF = {}
 def uf(name, arity=1):
@@ -210,7 +210,7 @@ class Path:
 class Interp:
     def __init__(s, mod, intercept=None, limits=None, merge_pure=True, resolve_selects=False):
         s.mod = mod; s.intercept = dict(DEFAULT_INTERCEPTS); s.intercept.update(intercept or {}); s.lim = limits or Limits(); s.steps = 0; s.ended = []; s.merge_pure = merge_pure
-        s.gaddr = {}; s.called = {}; s.npaths = 0; s.resolve_selects = resolve_selects
+        s.gaddr = {}; s.called = {}; s.npaths = 0; s.resolve_selects = resolve_selects; s.t0 = time.time()
     # ------------------------------------------------------------ set-up
     def new_state(s):
         st = State()
@@ -229,9 +229,20 @@ class Interp:
     def _alloc_global(s, st, name):
         p, ty = s._gparse(name)
         sz = sizeof(ty)
-        s.gaddr[name] = st.alloc(sz if sz else 256, 'global')
+        s.gaddr[name] = st.alloc(512 if name in s.STREAMS else (sz if sz else 256), 'global')
+    STREAMS = ('@_ZSt4cout', '@_ZSt4cerr', '@_ZSt4clog')
     def _init_global(s, st, name):
         p, ty = s._gparse(name)
+        if name in s.STREAMS:
+            # std::cout/cerr: enough structure for an inlined std::endl (os.put(os.widen('\n')); os.flush()): vptr -> fake vtable with vbase offset 0, basic_ios::_M_ctype (offset 240) -> ctype with _M_widen_ok and an identity widen table
+            if '__streams' not in s.gaddr:
+                vt = st.alloc(64, 'global'); st.zero.append((vt, 64)); ct = st.alloc(640, 'global'); st.zero.append((ct, 640))
+                st.mem[ct + 56] = (1, 1)
+                for i in range(256): st.mem[ct + 57 + i] = (1, i)
+                s.gaddr['__streams'] = (vt, ct)
+            vt, ct = s.gaddr['__streams']; a = s.gaddr[name]
+            st.zero.append((a, 512)); st.mem[a] = (8, vt + 24); st.mem[a + 240] = (8, ct)
+            return
         if p.peek() in (None, ','): return       # external: contents unknown
         v = p.value(ty)
         s._init(st, s.gaddr[name], ty, v)
@@ -351,6 +362,7 @@ class Interp:
                 if I.op == 'phi': ip += 1; continue
                 s.steps += 1
                 if s.steps > s.lim.max_steps: raise Unsupported('step limit')
+                if (s.steps & 1023) == 0 and time.time() - s.t0 > s.lim.max_seconds: raise Unsupported('exploration time limit of %d s' % s.lim.max_seconds)
                 try:
                     r = s.step(f, I, regs, st, depth)
                 except PathEnd as e:
@@ -619,8 +631,18 @@ class Interp:
             if pr[0] == 'o': return int((not un) and base)
             return int(un or base)
         if isinstance(a, (int, tuple, list)) or isinstance(b, (int, tuple, list)): raise Unsupported('fcmp on non-fp')
-        for x in (a, b):
-            if isinstance(x, float) and (x != x or abs(x) == float('inf')): raise Unsupported('non-finite constant compared with symbolic value')
+        for x, other_is_a in ((a, False), (b, True)):
+            if isinstance(x, float) and (x != x or abs(x) == float('inf')):
+                # a symbolic exact real is finite: comparisons with +-inf / NaN constants fold
+                if x != x: return int(pr[0] == 'u' and pr not in ('uno',) or pr == 'uno') if pr not in ('ord',) else 0
+                base = pr[1:] if pr not in ('ord', 'uno') else pr
+                if base == 'ord': return 1
+                if base == 'uno': return 0
+                pos = x > 0
+                # evaluate "finite <op> x" (other_is_a) or "x <op> finite"
+                if other_is_a: table = {'eq': 0, 'ne': 1, 'lt': int(pos), 'le': int(pos), 'gt': int(not pos), 'ge': int(not pos)}
+                else: table = {'eq': 0, 'ne': 1, 'lt': int(not pos), 'le': int(not pos), 'gt': int(pos), 'ge': int(pos)}
+                return table[base]
         if pr == 'uno': return 0
         if pr == 'ord': return 1
         a = toR(a); b = toR(b)
